@@ -1316,7 +1316,93 @@ def build_input_forms(rng, d, params):
     return jobs
 
 
-BUILDERS = {"input-forms": build_input_forms, "misc": build_misc, "split-ties": build_split_ties, "block-ties": build_block_ties, "ped-coverage": build_ped_coverage, "ped-changes": build_ped_changes, "diploid": build_diploid, "polyploid": build_polyploid, "linked-stress": build_linked_stress,
+def build_polyploid_ties(rng, d, params):
+    """polyphase inputs built for exact ties: ploidy 3-5 with DUPLICATED haplotypes, 3-6 blocks of different sizes
+    (a large block first, smaller ones after it), every read covering the same number of variants, error-free
+    reads, the same number of reads per haplotype (cluster coverages tie exactly), uniform base quality.  Reads never
+    bridge two blocks, so each block is an independent job of the worker pool."""
+    os.makedirs(d, exist_ok=True)
+    ploidy = params.get("ploidy", 4)
+    readlen = params.get("readlen", 4)              # variants per read, the same everywhere
+    sizes = list(params.get("blocks", [30, 12, 10]))
+    per_hap = list(params.get("reads_per_hap", [max(8, 4 * n // 3) for n in sizes]))
+    spacing = 20
+    nvar = sum(sizes)
+    L = (nvar + 5) * spacing + 200
+    ref = list(synth.random_seq(rng, L))
+    positions, blocks = [], []
+    pos0 = 100
+    for n in sizes:
+        bpos = [pos0 + i * spacing for i in range(n)]
+        pos0 = bpos[-1] + spacing
+        blocks.append(bpos)
+        positions += bpos
+    variants = []
+    for p in positions:
+        alt = rng.choice([b for b in "ACGT" if b != ref[p]])
+        variants.append(synth.Variant(p, ref[p], alt, "snv"))
+    used = set()
+    samples = [_rand_name(rng, used) for _ in range(params.get("nsamples", 1))]
+    sc = synth.Scenario({"chr1": "".join(ref)}, {"chr1": variants}, samples, {x: {"chr1": [(0, 1)] * nvar} for x in samples})
+    reff = synth.write_fasta(sc, os.path.join(d, "ref.fa"))
+    dup = params.get("duplicate", True)
+    lines = synth.vcf_header(sc)
+    reads = []
+    rid = 0
+    gts = {x: [] for x in samples}
+    for sample in samples:
+      off = 0
+      for bi, bpos in enumerate(blocks):
+          n = len(bpos)
+          haps = [[0] * n for _ in range(ploidy)]
+          distinct = ploidy - 1 if dup else ploidy
+          for v in range(n):
+              while True:
+                  col = [rng.randint(0, 1) for _ in range(distinct)]
+                  full = col + ([col[0]] if dup else [])          # last haplotype = copy of the first
+                  if 0 < sum(full) < ploidy:
+                      break
+              for h in range(ploidy):
+                  haps[h][v] = full[h]
+          for v in range(n):
+              gts[sample].append("/".join(str(a) for a in sorted(haps[h][v] for h in range(ploidy))))
+          # the same start offsets for every haplotype: coverage per haplotype is identical column by column
+          starts = [rng.randint(0, n - readlen) for _ in range(per_hap[bi])]
+          for h in range(ploidy):
+              if not params.get("shared_starts", True):
+                  starts = [rng.randint(0, n - readlen) for _ in range(per_hap[bi])]
+              for st in starts:
+                  a, b = bpos[st] - 5, bpos[st + readlen - 1] + 6
+                  alle = [0] * nvar
+                  for v in range(n):
+                      alle[off + v] = haps[h][v]
+                  seq, cig = synth.hap_walk(sc.ref["chr1"], variants, alle, a, b)
+                  reads.append(dict(name=f"r{rid:05d}", sample=sample, chrom="chr1", start=a, cigar=cig, seq=seq, qual=40,
+                                    hap=h, flag=0))
+                  rid += 1
+          off += n
+    for v, var in enumerate(variants):
+        lines.append(f"chr1\t{var.pos + 1}\t.\t{var.ref}\t{var.alt}\t.\tPASS\t.\tGT\t" + "\t".join(gts[x][v] for x in samples))
+    vcf = os.path.join(d, "in.vcf")
+    with open(vcf, "w") as fh:
+        fh.write("\n".join(lines) + "\n")
+    bam = synth.write_bam(sc, reads, os.path.join(d, "reads.bam"))
+    feat = dict(nsamples=len(samples), ploidy=ploidy, blocks=len(sizes), block_sizes="-".join(map(str, sizes)), tie_rich=True,
+                duplicated_haplotype=dup)
+    P = str(ploidy)
+    jobs = [Job("polyphase-ties", "polyphase", ["--ploidy", P, "--reference", reff, "-o", "{out}/out.vcf", vcf, bam],
+                {"vcf": ("out.vcf", "text")}, dims=("threads",), feat=feat),
+            Job("polyphase-ties-noref", "polyphase", ["--ploidy", P, "-o", "{out}/out.vcf", vcf, bam],
+                {"vcf": ("out.vcf", "text")}, dims=("threads",), feat=dict(feat, options="no --reference"))]
+    if params.get("b_sweep"):
+        bsens = str(rng.choice([0, 1, 3, 5]))
+        jobs.append(Job("polyphase-ties-B", "polyphase", ["-B", bsens, "--ploidy", P, "--reference", reff, "-o", "{out}/out.vcf",
+                                                          vcf, bam],
+                        {"vcf": ("out.vcf", "text")}, dims=("threads",), feat=dict(feat, options="-B " + bsens)))
+    return jobs
+
+
+BUILDERS = {"polyploid-ties": build_polyploid_ties, "input-forms": build_input_forms, "misc": build_misc, "split-ties": build_split_ties, "block-ties": build_block_ties, "ped-coverage": build_ped_coverage, "ped-changes": build_ped_changes, "diploid": build_diploid, "polyploid": build_polyploid, "linked-stress": build_linked_stress,
             "shared-barcode": build_shared_barcode, "undeclared-info": build_undeclared_info}
 
 
